@@ -26,15 +26,19 @@ Theorem inv_initial : Inv init.
 Proof. exact inv_init. Qed.
 Theorem inv2_initial : Inv2 init.
 Proof. exact inv2_init. Qed.
+Theorem inv3_initial : Inv3 init.
+Proof. exact inv3_init. Qed.
 
 (* Inv2: while a thread is inside the freshness callback (or the on-should-reload callback called from
    should_reload) the notifier mutex is held, so the flag it saw clear is still clear. *)
+(* Inv holds as long as the cache mutex is not poisoned; Inv3: once it is poisoned (a creator or callback
+   panicked inside acquire_env) nobody holds it and nobody ever gets past it again. *)
 Theorem inv_inductive : forall c s e s',
-  restore c = true -> Inv s -> Inv2 s -> step c s e s' -> Inv s' /\ Inv2 s'.
-Proof. intros c s e s' Hfix H1 H2 Hs. exact (invs_step c s e s' Hfix (conj H1 H2) Hs). Qed.
+  restore c = true -> Inv s -> Inv2 s -> Inv3 s -> step c s e s' -> Inv s' /\ Inv2 s' /\ Inv3 s'.
+Proof. intros c s e s' Hfix H1 H2 H3 Hs. exact (invs_step c s e s' Hfix (conj H1 (conj H2 H3)) Hs). Qed.
 
 Theorem inv_reachable : forall c tr s,
-  restore c = true -> run c init tr s -> Inv s /\ Inv2 s.
+  restore c = true -> run c init tr s -> Inv s /\ Inv2 s /\ Inv3 s.
 Proof. intros c tr s Hfix H. exact (invs_run c Hfix tr init s invs_init H). Qed.
 
 (* no_lost_request.  Take any run, any acquire_env (its first step is LAcqCache t, after the prefix
@@ -54,7 +58,7 @@ Proof. exact no_lost_request_proof. Qed.
 
 (* the same at state level: a guard handed out for an acquire that locked when r0 requests had taken effect *)
 Theorem handed_out_is_fresh : forall c s e s' t r0,
-  restore c = true -> Inv s /\ Inv2 s -> step c s e s' -> ph s' = Holding t r0 ->
+  restore c = true -> Inv s /\ Inv2 s /\ Inv3 s -> step c s e s' -> ph s' = Holding t r0 ->
   exists en, cached s' = Some en /\ r0 <= born en.
 Proof. exact handed_out_fresh. Qed.
 
@@ -84,13 +88,13 @@ Theorem decision_is_justified : forall c s e s' t r0 w,
   match w with
   | WhyEmpty => cached s = None
   | WhyFlag => flag s = true
-  | WhyFresh => lab e = LFreshEnd t true \/ (lab e = LOnCbEnd t /\ nlk s = NOnCb t true)
+  | WhyFresh => lab e = LFreshEnd t CbTrue \/ (lab e = LOnCbEnd t false /\ nlk s = NOnCb t true)
   end.
 Proof. exact decided_justified_proof. Qed.
 
 (* ... and the on-should-reload callback is entered from should_reload only when the freshness callback said "stale" *)
 Theorem oncb_from_check_justified : forall c s e s' t,
-  step c s e s' -> nlk s' = NOnCb t true -> nlk s <> NOnCb t true -> lab e = LFreshEnd t true.
+  step c s e s' -> nlk s' = NOnCb t true -> nlk s <> NOnCb t true -> lab e = LFreshEnd t CbTrue.
 Proof. exact oncb_from_check_justified_proof. Qed.
 
 (* The notifier mutex.  The user callbacks run with it held and may take arbitrarily long: while a
@@ -102,16 +106,42 @@ Theorem notifier_excludes : forall c s e s' h,
   step c s e s' -> nlk_holder (nlk s) = Some h ->
   (flag s' = flag s /\ reqs s' = reqs s /\ nlk s' = nlk s) \/
   (flag s' = flag s /\ reqs s' = reqs s /\ tid_of (lab e) = h /\
-   (lab e = LOnCbEnd h \/ exists a, lab e = LFreshEnd h a)).
+   ((exists p, lab e = LOnCbEnd h p) \/ exists a, lab e = LFreshEnd h a)).
 Proof. exact notifier_excludes_proof. Qed.
 
 Theorem request_takes_effect : forall c s e s' t,
-  step c s e s' -> lab e = LReqSet t -> nlk s = NFree /\ flag s' = true /\ reqs s' = reqs s + 1.
+  step c s e s' -> lab e = LReqSet t ->
+  nlk s = NFree /\
+  ((npois s = false /\ obs e = RNone /\ flag s' = true /\ reqs s' = reqs s + 1) \/ (npois s = true /\ obs e = RPanic)).
 Proof. exact request_takes_effect_proof. Qed.
 
 Theorem blocked_is_stutter : forall c s e s' t,
   step c s e s' -> lab e = LBlocked t -> s' = s /\ exists h, nlk_holder (nlk s) = Some h /\ h <> t.
 Proof. exact blocked_is_stutter_proof. Qed.
+
+(* Panics.  The creator and the callbacks are user code and may panic; the unwinding poisons the std
+   mutexes the thread holds, and every later lock().unwrap() panics in turn.  A panic does not restore
+   the reload flag (panic_keeps_flag) - what keeps the stale environment from being served afterwards is
+   the poison: once the cache mutex is poisoned no step of any thread hands out an environment
+   (no_env_after_panic: after a creator or freshness-callback panic inside acquire_env - e.g. during the
+   rebuild a request triggered - no environment, hence no stale one, is ever handed out again).
+   no_lost_request above holds for all runs, with any number of panics anywhere. *)
+Theorem panic_poisons : forall c s e s' t,
+  step c s e s' -> (lab e = LCrePanic t \/ lab e = LFreshEnd t CbPanic) -> cpois s' = true /\ ph s' = Idle /\ obs e = RPanic.
+Proof. exact panic_poisons_proof. Qed.
+
+Theorem panic_keeps_flag : forall c s e s',
+  step c s e s' -> obs e = RPanic -> flag s' = flag s /\ cached s' = cached s /\ reqs s' = reqs s.
+Proof. exact panic_keeps_flag_proof. Qed.
+
+Theorem poisoned_hands_out_nothing : forall c s e s',
+  Inv3 s -> cpois s = true -> step c s e s' -> cpois s' = true /\ forall en, obs e <> REnv en.
+Proof. exact poisoned_step. Qed.
+
+Theorem no_env_after_panic : forall c tr1 p tr2 s t,
+  run c init (tr1 ++ p :: tr2) s -> (lab p = LCrePanic t \/ lab p = LFreshEnd t CbPanic) ->
+  forall e en, In e tr2 -> obs e <> REnv en.
+Proof. exact no_env_after_panic_proof. Qed.
 
 (* The three guarantees as the executable trace checkers of Spec.v (these are what the check
    evaluates on the implementation's observed traces): every run of the model passes them. *)
@@ -146,6 +176,19 @@ Example nonblocking_request_rejected :
   (forall s, ~ run cfg_fresh init skip_trace s).
 Proof. exact nonblocking_request_rejected_proof. Qed.
 
+(* request; the rebuild it triggers panics; every later acquire_env panics on the poisoned mutex *)
+Example panicking_rebuild :
+  exists s, run cfg_fixed init panic_trace s /\ flag s = false /\ reqs s = 1 /\
+            cached s = Some {| gen := 1; born := 0 |} /\ cpois s = true /\ spec_ok panic_trace = true.
+Proof. exact panicking_rebuild_proof. Qed.
+
+(* the same schedule on a reloader that recovers from the poisoned cache mutex is not a run of the model
+   (event 13: the model panics there) and violates no_lost_request: generation 1 is served after the request *)
+Example poison_recovery_rejected :
+  replay cfg_fixed init 0 recover_trace = inr (13, RPanic) /\ no_lost_ok recover_trace = false /\
+  (forall s, ~ run cfg_fixed init recover_trace s).
+Proof. exact poison_recovery_rejected_proof. Qed.
+
 (* the hypotheses of no_lost_request are met by the 3-thread trace "request lands during the creator":
    the acquire of thread 2 starts after the request returned and is handed generation 2, born = 1 *)
 Example request_during_creator :
@@ -161,6 +204,7 @@ Print Assumptions exec_is_step.
 Print Assumptions replay_is_run.
 Print Assumptions inv_initial.
 Print Assumptions inv2_initial.
+Print Assumptions inv3_initial.
 Print Assumptions inv_inductive.
 Print Assumptions inv_reachable.
 Print Assumptions no_lost_request.
@@ -173,5 +217,9 @@ Print Assumptions oncb_from_check_justified.
 Print Assumptions notifier_excludes.
 Print Assumptions request_takes_effect.
 Print Assumptions blocked_is_stutter.
+Print Assumptions panic_poisons.
+Print Assumptions panic_keeps_flag.
+Print Assumptions poisoned_hands_out_nothing.
+Print Assumptions no_env_after_panic.
 Print Assumptions spec_holds_on_every_run.
 Print Assumptions lost_request_refuted_before_fix.
